@@ -352,7 +352,7 @@ pub fn run(run: &Run) -> i32 {
             }
         }
         // long sequences (lengths around 64, 4096, 65536 symbols / bits): fixed pseudo-random bit patterns
-        for len in if run.thorough() { vec![63usize, 66, 192, 195, 4095, 4098, 12288, 12291, 65538, 196611] } else { vec![66usize, 195, 4097, 4098, 12291] } {
+        for len in if run.thorough() { vec![63usize, 66, 192, 195, 4095, 4098, 12288, 12291, 65538, 196611] } else { vec![33usize, 66, 129, 195, 258, 513, 1026, 2049, 4097, 4098, 8193, 12291, 16386, 32769, 49155, 65538] } {
             for w in [1u32, 2] {
                 for s in [0.05, 1.0] {
                     items.push(json!({"kind": "seq", "len": len, "word": w, "sigma": s}));
@@ -365,7 +365,7 @@ pub fn run(run: &Run) -> i32 {
         run,
         acc,
         Coverage {
-            rule: "sigma in {1e-3,0.05,0.3,0.7071,1,2.5,40,1e3} x 8PSK samples on a square grid over [-3,3]^2 plus constellation points, decision-boundary midpoints, boundary rays at radius 0.5 and 2, origin, a far point; BPSK samples on a 15-value list; every bit sequence up to the length bound (both modulations, three sigmas; each also as a reversed and as a stride-2 array view), plus fixed pseudo-random sequences of 66..12291 (thorough: 196611) bits; the constellation table itself. Non-trivial = the reference log-ratio exceeds 100x the comparison tolerance in at least one bit (so the comparison is informative).".into(),
+            rule: "sigma in {1e-3,0.05,0.3,0.7071,1,2.5,40,1e3} x 8PSK samples on a square grid over [-3,3]^2 plus constellation points, decision-boundary midpoints, boundary rays at radius 0.5 and 2, origin, a far point; BPSK samples on a 15-value list; every bit sequence up to the length bound (both modulations, three sigmas; each also as a reversed and as a stride-2 array view), plus fixed pseudo-random sequences of 33..65538 bits at every power of two plus one or two (thorough: 196611); the constellation table itself. Non-trivial = the reference log-ratio exceeds 100x the comparison tolerance in at least one bit (so the comparison is informative).".into(),
             exhaustive: true,
             extra: serde_json::Map::new(),
             graph: None,
